@@ -49,6 +49,7 @@ def lemma_obligations(pid, names):
         for label, f in lem['proof']:
             ob = Obligation(f'{pid}/lemma.{n}.{label}', [], f, text=f'lemma {n} ({label})')
             ob.lemmas = list(lem['uses'])
+            ob.unfold = list(lem.get('unfold', []))
             obs.append(ob)
     return obs
 
@@ -78,6 +79,7 @@ def generate(pid, prop, reg):
             continue
         for ob in obs:
             ob.lemmas = lemmas_for(c, ob.name)
+            ob.unfold = list(c.get('unfold', []))
             ob.function = key
             used_lemmas |= set(ob.lemmas)
         used_lemmas |= set(c.get('lemmas', []))
